@@ -58,3 +58,4 @@ Proof.
     cbn in Hn. injection Hn as <-. discriminate.
   - eexists. vm_compute. reflexivity.
 Qed.
+
